@@ -2,10 +2,10 @@ package rules
 
 import (
 	"fmt"
-	"os"
 	"go/ast"
 	"go/token"
 	"go/types"
+	"os"
 	"sort"
 	"strings"
 
@@ -527,8 +527,8 @@ func shapeTypes(c *core.Ctx) []*types.Named {
 // ForShapeN makes one ForProductN[T, A...](attr...) call; Put on the built value is N chained Put invocations, the
 // i-th lens of ForProductN receiving the i-th value parameter; Get returns the i-th lens's Get(s) at position i.
 type shapeComp struct {
-	nt                    *types.Named
-	forOK, putOK, getOK   bool
+	nt                     *types.Named
+	forOK, putOK, getOK    bool
 	forWhy, putWhy, getWhy string
 }
 
